@@ -50,9 +50,10 @@ func (c *ppCodec) NewXProtocol(ctx context.Context) api.XProtocol {
 }
 
 var (
-	ppHoldArmed int32
-	ppHeld      int64
-	ppArmedN    int64
+	ppHoldArmed        int32
+	ppHeld             int64
+	ppArmedN           int64
+	ppCloseDuringSetup int64
 	// the closeNext counter of the upstream that is about to close a fresh connection (set by the "ac" operation)
 	ppAcceptClosed *int32
 	ppCloseSeen    = make(chan struct{}, 64)
@@ -544,6 +545,7 @@ func c09Steered(c *lab.Ctx, e *engine, proto string, rng *lab.Rand, doOp func(cl
 		mu.Unlock()
 	})
 	var cmu sync.Mutex
+	var inSetup sync.Map // connection id -> its set-up is parked at xprotocol.pingpong.setup.beforeConnected
 	closedConn := map[uint64]chan struct{}{}
 	closedCh := func(id uint64) chan struct{} {
 		cmu.Lock()
@@ -562,6 +564,8 @@ func c09Steered(c *lab.Ctx, e *engine, proto string, rng *lab.Rand, doOp func(cl
 			if atomic.LoadInt32(&ppHoldArmed) == 0 {
 				return
 			}
+			inSetup.Store(id, true)
+			defer inSetup.Delete(id)
 			select {
 			case <-closedCh(id):
 				atomic.AddInt64(&ppHeld, 1)
@@ -581,6 +585,12 @@ func c09Steered(c *lab.Ctx, e *engine, proto string, rng *lab.Rand, doOp func(cl
 				close(x)
 			}
 			cmu.Unlock()
+		}
+		if _, parked := inSetup.Load(id); parked {
+			// the connection is still being set up (parked above): no stream can exist on it, and waiting for one here would let
+			// the set-up finish first - the order this steering is there to produce is close handler BEFORE "connected"
+			atomic.AddInt64(&ppCloseDuringSetup, 1)
+			return
 		}
 		select {
 		case <-ch(id):
@@ -640,6 +650,7 @@ func c09Steered(c *lab.Ctx, e *engine, proto string, rng *lab.Rand, doOp func(cl
 	if proto != "Http1" {
 		c.Count("steered_setup_held_until_close_seen_"+proto, atomic.LoadInt64(&ppHeld))
 		c.Count("steered_setup_hold_armed_"+proto, atomic.LoadInt64(&ppArmedN))
+		c.Count("steered_close_handled_during_setup_"+proto, atomic.LoadInt64(&ppCloseDuringSetup))
 	}
 	c.Count("pool_books_read_"+proto, atomic.LoadInt64(&c09PoolsRead))
 	c.Count("steered_close_after_destroy_"+proto, atomic.LoadInt64(&ordered))
